@@ -86,9 +86,13 @@ def events(seed, n):
                             xs = list(ax) + [0.5 * (ax[0] + ax[1]), ax[0] + (ax[1] - ax[0]) / 3.0, ax[-2] + 2 * (ax[-1] - ax[-2]) / 3.0]
                             for x in xs:
                                 for key in (a, f"n{a}"):
-                                    r = grid_slice_interp(g, float(x), key)
-                                    ev.append({"kind": "Slice", "grid": _proj(g), "axis": a + 1, "x": bits(x), "res": _proj(r),
-                                               "_m": {"shape": list(shape), "axis": key, "x": float(x)}})
+                                    try:
+                                        r = _proj(grid_slice_interp(g, float(x), key))
+                                        err = None
+                                    except Exception as ex:       # a legal slice that raises: reported as an empty result
+                                        r, err = {"shape": [-1], "names": [], "axes": [], "data": []}, repr(ex)[:200]
+                                    ev.append({"kind": "Slice", "grid": _proj(g), "axis": a + 1, "x": bits(x), "res": r,
+                                               "_m": {"shape": list(shape), "axis": key, "x": float(x), "error": err}})
         # HDF5 overwrite sequences: grid A, then a same-shape grid B of another dtype to the same file and path, then read
         for a_dt, b_dt in (("i4", "f8"), ("f4", "f8"), ("i4", "i8"), ("f8", "i4"), ("f8", "f8")):
             for h5path in ("/", "/nested/grid"):
